@@ -232,7 +232,7 @@ func VerifH_C06_wustream() {
 // arrive, each one of: connection WINDOW_UPDATE of 1, 5 or 20, WINDOW_UPDATE
 // of 3 on stream 1 or on stream 3, SETTINGS_INITIAL_WINDOW_SIZE raised to 11
 // or lowered to 2 (a negative window for a stream that has already sent
-// more). Through the real read loop and stream loop: after every step the
+// more), or a SETTINGS frame that carries another parameter only. Through the real read loop and stream loop: after every step the
 // DATA bytes sent so far on each stream and on the connection are within what
 // has been granted, and everything the grants permit has been sent (no
 // response is left waiting with both its windows open); END_STREAM goes out
@@ -284,7 +284,10 @@ func VerifH_C06_resume() {
 	s.send(vFrame(0x1, 0x5, 3, vReqBlock('3')))
 	account(s.replies())
 	for step := 0; step < vPick(3, 4); step++ {
-		switch vRange(0, 6) {
+		switch vRange(0, 7) {
+		case 7:
+			// a SETTINGS frame that does not mention the window changes no window
+			s.send(vFrame(0x4, 0x0, 0, []byte{0, 1, 0, 0, 0x10, 0}))
 		case 0:
 			connGrant++
 			s.send(vFrame(0x8, 0x0, 0, []byte{0, 0, 0, 1}))
